@@ -1,6 +1,7 @@
 #!/bin/sh
 # run_seeds.sh "<letters>" <out.tsv> <scratch worktree> : like run_all_seeds.sh for a subset of seed letters, so that several
 # sweeps can run side by side on their own scratch worktrees (never on /repo). Example: tools/run_seeds.sh "C D" /tmp/r_cd.tsv /tmp/sweep_cd
+# ONLY="C01 C02" restricts the sweep to those properties.
 LETTERS=$1; OUT=$2; W=$3
 git -C /repo worktree remove --force $W 2>/dev/null
 git -C /repo worktree add --detach $W HEAD >/dev/null 2>&1 || exit 3
@@ -10,6 +11,7 @@ for x in $LETTERS; do
   for d in /verif/seeded/C??/$x; do
     [ -f $d/patch.diff ] || continue
     id=$(echo $d | cut -d/ -f4)
+    if [ -n "$ONLY" ]; then case " $ONLY " in *" $id "*) ;; *) continue;; esac; fi
     cd $W && git checkout -q -- . && git apply $d/patch.diff 2>/dev/null || { printf "$id/$x\t-\tpatch-does-not-apply\t0\n" >> $OUT; continue; }
     t0=$(date +%s)
     cd /verif && timeout 1800 ./check $id quick > /tmp/seedrun_${id}_$x.log 2>&1; rc=$?
